@@ -2,6 +2,7 @@ package props
 
 import (
 	"fmt"
+	"sync"
 	"sort"
 	"testing"
 
@@ -147,6 +148,13 @@ var checkC01Synth = def("C01/synth", func(c struct{ FEN string }) error {
 	}
 	b := bridge.Board(zt0, st)
 	labels, special := posLabels(&st.Pos)
+	if n := len(st.Pos.PseudoLegal()); n > 256 {
+		labels, special = append(labels, "more-than-256-pseudo-legal-moves", "more-than-218-pseudo-legal-moves"), true
+	} else if n > 218 {
+		labels, special = append(labels, "more-than-218-pseudo-legal-moves"), true
+	} else if n > 150 {
+		labels = append(labels, "more-than-150-pseudo-legal-moves")
+	}
 	stats.Case("C01/synth", stats.FP(st.Pos.KeyFEN()), special, labels...)
 	return compareMoves(b, &st.Pos)
 })
@@ -155,6 +163,9 @@ func TestC01_synth(t *testing.T) {
 	runRapid(t, "C01/synth", 60000, func(t *rapid.T) struct{ FEN string } {
 		if rapid.IntRange(0, 5).Draw(t, "epcheck") == 0 {
 			return struct{ FEN string }{gen.EPCheck(t).FEN()}
+		}
+		if rapid.IntRange(0, 24).Draw(t, "manymoves") == 0 {
+			return struct{ FEN string }{gen.ManyMoves(t).FEN()}
 		}
 		return struct{ FEN string }{gen.Synth(t).FEN()}
 	}, func(c struct{ FEN string }) error {
@@ -243,5 +254,87 @@ func TestC01_perft(t *testing.T) {
 	}, func(c perftCase) error {
 		stats.Sample("C01/perft", c)
 		return checkC01Perft(c)
+	})
+}
+
+// C01/parallel: move generation is a pure function of the position; searches of several
+// engines, and a halted search next to its successor, generate moves at the same time.
+var checkC01Parallel = def("C01/parallel", func(fens []string) error {
+	errs := make([]error, len(fens))
+	var wg sync.WaitGroup
+	for i, f := range fens {
+		i, f := i, f
+		wg.Add(1)
+		go func() {
+			defer wg.Done()
+			defer func() {
+				if r := recover(); r != nil {
+					errs[i] = fmt.Errorf("panic: %v", r)
+				}
+			}()
+			st, err := oracle.ParseFEN(f)
+			if err != nil {
+				errs[i] = err
+				return
+			}
+			p, err := bridge.Position(&st.Pos)
+			if err != nil {
+				errs[i] = err
+				return
+			}
+			turn := bridge.Color(st.Pos.White)
+			legal, pseudo := map[bridge.Key]bool{}, map[bridge.Key]bool{}
+			for _, m := range st.Pos.Legal() {
+				legal[bridge.KeyOf(m)] = true
+			}
+			for _, m := range st.Pos.PseudoLegal() {
+				pseudo[bridge.KeyOf(m)] = true
+			}
+			for rep := 0; rep < 12; rep++ {
+				got := p.LegalMoves(turn)
+				if len(got) != len(legal) {
+					errs[i] = fmt.Errorf("LegalMoves lists %d moves, %d are legal", len(got), len(legal))
+					return
+				}
+				for _, m := range got {
+					if !legal[bridge.KeyOfRepo(m)] {
+						errs[i] = fmt.Errorf("LegalMoves lists %s, which is not legal", bridge.Text(m))
+						return
+					}
+				}
+				for _, m := range p.PseudoLegalMoves(turn) {
+					if !pseudo[bridge.KeyOfRepo(m)] {
+						errs[i] = fmt.Errorf("PseudoLegalMoves lists %s, which no piece of the side to move can play", bridge.Text(m))
+						return
+					}
+				}
+			}
+		}()
+	}
+	wg.Wait()
+	for i, err := range errs {
+		if err != nil {
+			return fmt.Errorf("generated concurrently with %d other positions: %v (position %s)", len(fens)-1, err, fens[i])
+		}
+	}
+	stats.Case("C01/parallel", stats.FP(fmt.Sprint(fens)), len(fens) > 1, fmt.Sprintf("goroutines:%d", len(fens)))
+	return nil
+})
+
+func TestC01_parallel(t *testing.T) {
+	runRapid(t, "C01/parallel", 1600, func(t *rapid.T) []string {
+		var fens []string
+		for i, n := 0, rapid.IntRange(2, 8).Draw(t, "goroutines"); i < n; i++ {
+			if rapid.Bool().Draw(t, "synth") {
+				fens = append(fens, gen.Synth(t).FEN())
+			} else {
+				_, g := gen.Game(t, 40)
+				fens = append(fens, g.Cur().FEN())
+			}
+		}
+		return fens
+	}, func(fens []string) error {
+		stats.Sample("C01/parallel", fens)
+		return checkC01Parallel(fens)
 	})
 }
